@@ -57,9 +57,12 @@ type Case struct {
 	// payment and settles the moment its Update returns, while the accepting
 	// party is still inside its acceptance (the return of its Publish call is
 	// held for RushHold ms): the registration races with the acceptance.
-	Rush     bool `json:"rush,omitempty"`
-	RushBy   int  `json:"rushby,omitempty"`
-	RushHold int  `json:"rushhold,omitempty"`
+	// WithdrawFault[i]: party i's first Withdraw call on the ledger fails
+	// without effect (the chain was not reachable); the party repeats Settle
+	WithdrawFault [2]bool `json:"withdrawfault,omitempty"`
+	Rush          bool    `json:"rush,omitempty"`
+	RushBy        int     `json:"rushby,omitempty"`
+	RushHold      int     `json:"rushhold,omitempty"`
 }
 
 func drawCase(t *rapid.T) Case {
@@ -121,6 +124,9 @@ func drawCase(t *rapid.T) Case {
 		c.Order, c.Concurrent = []int{0, 1}, true
 	}
 	c.Secondary = [2]bool{rapid.Bool().Draw(t, "sec0"), rapid.Bool().Draw(t, "sec1")}
+	if rapid.IntRange(0, 3).Draw(t, "wfault") == 0 {
+		c.WithdrawFault = [2]bool{rapid.Bool().Draw(t, "wf0"), rapid.Bool().Draw(t, "wf1")}
+	}
 	if rapid.IntRange(0, 3).Draw(t, "rush") == 0 {
 		c.Rush, c.FinalLast = true, false
 		c.RushBy = rapid.IntRange(0, 1).Draw(t, "rushby")
@@ -567,7 +573,22 @@ func runCase(c Case) (o *h.Outcome) {
 	if rush {
 		res, before = rushRes, rushBefore
 	} else {
+		for i := 0; i < 2; i++ {
+			if c.WithdrawFault[i] {
+				L.FailWithdraws(pr.P[i].Name, 1)
+				o.Class("withdraw-fault-injected")
+			}
+		}
 		res = pr.Settle(c.Order, c.Concurrent, c.Secondary)
+		// a party whose withdrawal met the injected fault settles again
+		for i := 0; i < 2; i++ {
+			if c.WithdrawFault[i] && res[i].Err != nil && !res[i].Hung {
+				o.Class("settle-repeated-after-withdraw-fault")
+				pr.Env.Quiesce(10*time.Millisecond, sim.HangLimit)
+				r2 := pr.Settle([]int{i}, false, c.Secondary)
+				res[i] = r2[i]
+			}
+		}
 	}
 	for i := 0; i < 2; i++ {
 		if res[i].Hung {
